@@ -341,7 +341,17 @@ func runC03(t *testing.T, sc *Scenario) Result {
 		tags = append(tags, a.Name)
 	}
 	obs := RunScenario(t, sc, nil)
-	res.Digest = traceDigest(obs, c03Skip)
+	if pn == "ldap" {
+		// search result entries list their attributes in map order: the run digest is taken over the canonical form
+		dobs := *obs
+		dobs.Conns = append([]ConnObs(nil), obs.Conns...)
+		for i := range dobs.Conns {
+			dobs.Conns[i].Recv = []byte(ldapCanon(obs.Conns[i].Recv))
+		}
+		res.Digest = traceDigest(&dobs, c03Skip)
+	} else {
+		res.Digest = traceDigest(obs, c03Skip)
+	}
 	res.Steps, res.SimMs = obs.Steps, obs.SimMs
 	res.Nontriv = len(sc.Actors) > 1
 	if obs.BootErr != "" {
